@@ -54,6 +54,36 @@ def gen_history(r, tier):
     ops.append({'kind': 'diff', 'a': a, 'b': b})
     return ops
 
+
+def versions_history(r):
+    """successive requests about versions of one notebook (a long-running server): the same cell ids come back
+    with other outputs / sources, so anything remembered per id, per position or per object from an earlier
+    request would show in a later one.  Cells have similar sources, so the output comparison decides the alignment."""
+    summary = "count  100\nmean   5.0\nstd    1.0\nmin    0.0\n25%    4.3\n50%    5.0\n75%    5.7\nmax    10.0\n"
+    texts = {'T': summary, 'T2': summary.replace('mean   5.0', 'mean   5.1'),
+             'U': "Traceback: could not open the data file, giving up on this run of the pipeline entirely\n",
+             'V': "<Figure size 640x480 with 1 Axes> saved to /tmp/plots/figure-17.png\n"}
+    srcs = ["df = load('data.csv')\nprint(df.describe())\n", "df = load('data-v2.csv')\ndf = clean(df)\nprint(df.describe())\n",
+            "df = load('data-v2.csv')\ndf = clean(df)\nprint(df.describe().plot())\n"]
+    def cell(cid, src, t, n):
+        return {'cell_type': 'code', 'id': cid, 'execution_count': n, 'metadata': {}, 'source': src,
+                'outputs': [{'output_type': 'stream', 'name': 'stdout', 'text': texts[t]}]}
+    def nb(cells): return {'cells': cells, 'metadata': {}, 'nbformat': 4, 'nbformat_minor': 5}
+    ids = r.sample(['stats-v1', 'stats-v2', 'plot-v2', 'c3a1', 'zz9'], 3)
+    flip = r.random() < 0.6
+    o1, o2 = r.choice([('T', 'U'), ('T', 'V'), ('U', 'T')]) if flip else (r.choice(list(texts)), r.choice(list(texts)))
+    o4, o5 = r.choice([('T', 'T2'), ('T2', 'T'), ('T', 'T')]) if flip else (r.choice(list(texts)), r.choice(list(texts)))
+    if r.random() < 0.5: (o1, o2), (o4, o5) = (o4, o5), (o1, o2)
+    A1 = nb([cell(ids[0], srcs[0], o1, 1)]); B1 = nb([cell(ids[1], srcs[1], o2, 2)] + ([cell(ids[2], srcs[2], r.choice(list(texts)), 3)] if r.random() < 0.4 else []))
+    second = [cell(ids[1], srcs[1], o5, 3), cell(ids[2], srcs[2], r.choice(['V', 'U', 'T']), 4)]
+    if r.random() < 0.3: second.reverse()
+    A2 = nb([cell(ids[0], srcs[0], o4, 1)]); B2 = nb(second)
+    ops = [{'kind': 'diff', 'a': A1, 'b': B1}]
+    if r.random() < 0.3: ops.append({'kind': 'merge', 'base': A1, 'local': B1, 'remote': copy.deepcopy(A1), 'strategy': 'inline'})
+    if r.random() < 0.5: ops.append({'kind': 'diff', 'a': A2, 'b': B2})
+    else: ops.append({'kind': 'merge', 'base': A2, 'local': B2, 'remote': nb([cell(ids[0], srcs[0], o4, 1), cell('rem0te', srcs[2], 'V', 9)]), 'strategy': r.choice(['inline', 'mergetool'])})
+    return ops
+
 def everywhere_pair(r):
     a = gennb.gen_notebook(r, rich=True, minor=5, ncells=r.choice([2, 3, 4]))
     a['metadata'].setdefault('kernelspec', {'display_name': 'Python 3', 'language': 'python', 'name': 'python3'})
@@ -185,6 +215,7 @@ def run(tier, seed):
         for lift in ({'kind': 'reset'}, {'kind': 'targets', 'shown': [True] * 6}):
             a, bnb = everywhere_pair(r)
             histories.append([{'kind': 'targets', 'shown': [i not in hidden for i in range(6)]}, lift, {'kind': 'diff', 'a': a, 'b': bnb}])
+    for _ in range(24 if tier == 'quick' else 300): histories.append(versions_history(r))
     res = core.run_impl([{'op': 'history', 'ops': h} for h in histories], shards=14, isolate=True)
     states = []; evals = 0; nontrivial = set(); hist = {}
     fresh_tasks = []; fresh_idx = []
